@@ -200,7 +200,7 @@ impl Check for C14 {
     fn runs(&self, tier: Tier) -> u64 {
         match tier {
             Tier::Quick => 100_000,
-            Tier::Thorough => 1_500_000,
+            Tier::Thorough => 600_000,
         }
     }
     fn generate(&self, run_seed: u64, index: u64, tier: Tier) -> Case {
@@ -369,7 +369,9 @@ fn run_c15(sc: &Scenario, keep_log: bool) -> (Vec<Violation>, Outcome) {
                         let existed = before_len[0].is_some();
                         let exists_now = d.exec.record_len(&f.req.key).is_some();
                         let stores = matches!(info.kind, Kind::Set | Kind::Add | Kind::Replace | Kind::Append | Kind::Prepend | Kind::Incr | Kind::Decr);
-                        let was_expired = matches!(before_pres[0], crate::model::Presence::Expired | crate::model::Presence::Either | crate::model::Presence::Unknown);
+                        // (once the accounted usage has been over the limit, items may have been evicted and
+                        // silently re-created with other TTLs: the model's idea of this key's expiry no longer binds)
+                        let was_expired = ever_over_limit || matches!(before_pres[0], crate::model::Presence::Expired | crate::model::Presence::Either | crate::model::Presence::Unknown);
                         // (a delete that answers 'not found' for a stored-but-expired record has collected it, too)
                         let collected = existed && was_expired && (!exists_now || (stores && ok)) && !matches!(info.kind, Kind::Flush | Kind::Set) && (info.kind != Kind::Delete || st == status::NOT_FOUND);
                         let overwrote = existed && !collected && stores && ok && exists_now;
@@ -475,7 +477,7 @@ impl Check for C15 {
     fn runs(&self, tier: Tier) -> u64 {
         match tier {
             Tier::Quick => 16_000,
-            Tier::Thorough => 200_000,
+            Tier::Thorough => 60_000,
         }
     }
     fn generate(&self, run_seed: u64, _index: u64, tier: Tier) -> Case {
